@@ -92,3 +92,32 @@ func VerifC09Names(nl, ll, k int) {
 	b := []byte{1, 0, 0, 1, 0, 24, byte(len(v) >> 8), byte(len(v))}
 	verifC09Check(append(b, v...), 1, true)
 }
+
+// VerifC09Update: a decoded message that repeats one option (option request, one code each) k
+// times is given one more requested code through the stock modifier (read, merge, update) `steps`
+// times and encoded again: the result stays within a fixed multiple of the input (an update that
+// multiplied the merged list into every slot would be quadratic, then cubic, ...).
+func VerifC09Update(k, steps int) {
+	m := &Message{MessageType: MessageTypeSolicit}
+	copy(m.TransactionID[:], verifBytes("xid", 3))
+	for i := 0; i < k; i++ {
+		c := uint16(100 + i) // large k: concrete shape (distinct codes)
+		if k <= 4 {
+			c = verifU16("oro")
+		}
+		m.Options.Add(&optRequestedOption{OptionCodes{OptionCode(c)}})
+	}
+	in := m.ToBytes()
+	d, err := MessageFromBytes(in)
+	verifAssert(err == nil, "decode-ok")
+	if err != nil {
+		return
+	}
+	for s := 0; s < steps; s++ {
+		WithRequestedOptions(OptionCode(200 + s))(d)
+	}
+	out := d.ToBytes()
+	verifAssert(len(out) <= 2*len(in)+16*steps+16, "reencoded-size-is-a-fixed-multiple-of-the-input")
+	verifAssert(len(d.Options.Options) <= k+1, "no-more-options-than-before-plus-one")
+	verifReach("end")
+}
